@@ -321,6 +321,33 @@ func genDoc(r *rand.Rand, o genOpts) *docSpec {
 		}
 	}
 
+	// --- the running text once more, elsewhere in the same band of one page ------
+	// (e.g. the title high on the title page): it does not repeat at *that*
+	// position, so it has to stay.
+	{
+		want := r.Intn(8) == 0
+		page := r.Intn(d.NPages)
+		pick := r.Intn(4)
+		align := []string{"left", "center", "right"}[r.Intn(3)]
+		var runs []*unit
+		for i := range d.Units {
+			if u := &d.Units[i]; u.Page == page && (u.Role == "hdr-run" || u.Role == "ftr-run") {
+				runs = append(runs, u)
+			}
+		}
+		if want && len(runs) > 0 && !o.Neutral["margin.copy-elsewhere"] {
+			src := *runs[pick%len(runs)]
+			if dist, ok := takeDist(src.Band); ok {
+				x := alignX(align, d.W[page], src.Text, src.Size)
+				if x > src.X-40 && x < src.X+40 { // clearly elsewhere, also horizontally
+					x = src.X + 60
+				}
+				d.feat("margin.copy-elsewhere")
+				add(unit{Page: page, Role: "margin-copy-elsewhere", Band: src.Band, X: x, Y: fromEdge(src.Band, d.H[page], dist), Size: src.Size, Text: src.Text})
+			}
+		}
+	}
+
 	// --- body -------------------------------------------------------------------
 	repeatBody := r.Intn(5) == 0 // a body line that is identical on every page, at the same place
 	repeatText := phrase(r, tk.Next(), 2)
